@@ -1661,4 +1661,139 @@ theorem rec_iff_lookup {E : Env} {f : Fwd} {o : Id} (hc : Coh E f o)
       exact Or.inr ⟨hk, ds, k2, _, dictGet_mem ds t _ k4, hl⟩
 
 
+/-! ### totality: add and the full assignment never fail -/
+
+theorem foldlM_total {σ α : Type} (f : σ → α → Res σ) (Q : σ → Prop) (A : α → Prop)
+    (hstep : ∀ s a, Q s → A a → ∃ s', f s a = .ok s' ∧ Q s') :
+    ∀ (l : List α) (s : σ), Q s → (∀ a ∈ l, A a) → ∃ s', l.foldlM f s = .ok s' ∧ Q s' := by
+  intro l
+  induction l with
+  | nil => intro s hq _; exact ⟨s, rfl, hq⟩
+  | cons a as ih =>
+    intro s hq ha
+    obtain ⟨s1, h1, q1⟩ := hstep s a hq (ha a List.mem_cons_self)
+    obtain ⟨s2, h2, q2⟩ := ih s1 q1 (fun b hb => ha b (List.mem_cons_of_mem _ hb))
+    refine ⟨s2, ?_, q2⟩
+    rw [List.foldlM_cons, h1]
+    exact h2
+
+/-- the two prediction dicts exist (they are created before the time-step loop) -/
+def DictsReady (E : Env) (f : Fwd) (o : Id) : Prop :=
+  E.kind o = Kind.dynTraj → f.predCenter.isSome ∧ f.predShape.isSome
+
+theorem assignFwd_ok {E : Env} {o : Id} {f : Fwd} (t : T) (h : DictsReady E f o) :
+    ∃ lids f3, assignFwd E false o f t = .ok (lids, f3) := by
+  unfold assignFwd
+  by_cases hk : E.kind o = Kind.dynTraj
+  · obtain ⟨h1, h2⟩ := h hk
+    obtain ⟨dc, hdc⟩ := Option.isSome_iff_exists.mp h1
+    obtain ⟨ds, hds⟩ := Option.isSome_iff_exists.mp h2
+    simp only [hk, if_true, hdc, hds, Bool.false_eq_true, if_false, bind, Except.bind, pure, Except.pure]
+    exact ⟨_, _, rfl⟩
+  · simp only [hk, if_false, Bool.false_eq_true, bind, Except.bind, pure, Except.pure]
+    exact ⟨_, _, rfl⟩
+
+theorem assignDynAt_total {E : Env} {s : St} {o : Id} {t : T} (hw : WfEnv E) (hr : DictsReady E (s.fwd o) o)
+    (ht : E.t0 o ≤ t) : ∃ s', assignDynAt E false o s t = .ok s' ∧ DictsReady E (s'.fwd o) o := by
+  unfold assignDynAt
+  split
+  · exact ⟨s, rfl, hr⟩
+  · rw [if_neg (Int.not_lt.mpr ht)]
+    obtain ⟨lids, f3, ha⟩ := assignFwd_ok t hr
+    obtain ⟨e0, _, _, e3, _⟩ := assignFwd_false E o _ t lids f3 ha
+    subst e0
+    obtain ⟨r, hreg⟩ := regDyn_ok E o t (E.shp o t) s.dreg (fun l hl => hw.shp_sub o t l hl)
+    refine ⟨{ s.setFwd o f3 with dreg := r }, ?_, ?_⟩
+    · rw [ha]; simp only [bind, Except.bind]; rw [hreg]; rfl
+    · intro hk
+      obtain ⟨dc, ds, _, _, g3, g4⟩ := e3 hk
+      show ((s.setFwd o f3).fwd o).predCenter.isSome ∧ ((s.setFwd o f3).fwd o).predShape.isSome
+      rw [setFwd_fwd, if_pos rfl, g3, g4]; exact ⟨rfl, rfl⟩
+
+theorem assignObs_total {E : Env} {s : St} {o : Id} (hw : WfEnv E) (hin : o ∈ s.statics ∨ o ∈ s.dynamics) :
+    ∃ s', assignObs E none false s o = .ok s' := by
+  unfold assignObs
+  split
+  · -- dynamic: every step of the loop is ≥ the initial time step and the dicts exist
+    have hsteps : ∀ a ∈ (if E.kind o = Kind.dynTraj then trange (E.t0 o) (E.len o) else [E.t0 o]), E.t0 o ≤ a := by
+      intro a ha
+      split at ha
+      · exact (mem_trange.mp ha).1
+      · rw [List.mem_singleton.mp ha]; exact Int.le_refl _
+    have hready : DictsReady E ((if E.kind o = Kind.dynTraj then s.setFwd o (initDicts false (s.fwd o)) else s).fwd o) o := by
+      intro hk
+      rw [if_pos hk, setFwd_fwd, if_pos rfl]
+      unfold initDicts
+      constructor
+      · show (if (s.fwd o).predCenter.isNone then some [] else (s.fwd o).predCenter).isSome
+        cases (s.fwd o).predCenter <;> rfl
+      · show (if (!false && (s.fwd o).predShape.isNone) then some [] else (s.fwd o).predShape).isSome
+        cases (s.fwd o).predShape <;> rfl
+    obtain ⟨s', h1, _⟩ := foldlM_total (assignDynAt E false o) (fun x => DictsReady E (x.fwd o) o) (fun a => E.t0 o ≤ a)
+      (fun x a hq ha => assignDynAt_total hw hq ha) _ _ hready hsteps
+    exact ⟨s', h1⟩
+  · next hnd =>
+    have hos : o ∈ s.statics := by
+      rcases hin with h | h
+      · exact h
+      · exact absurd h hnd
+    rw [if_pos hos]
+    unfold assignStatic
+    simp only [Bool.false_eq_true, if_false]
+    obtain ⟨r, hr⟩ := regStatic_ok E o (E.shp o (E.t0 o)) s.sreg (fun l hl => hw.shp_sub o _ l hl)
+    exact ⟨_, by rw [hr]; rfl⟩
+
+theorem assign_total {E : Env} (hw : WfEnv E) (s : St) : ∃ s', assign E none none false s = .ok s' := by
+  unfold assign
+  obtain ⟨s', h, _⟩ := foldlM_total (assignObs E none false)
+    (fun x => x.statics = s.statics ∧ x.dynamics = s.dynamics) (fun a => a ∈ s.statics ∨ a ∈ s.dynamics)
+    (by
+      rintro x a ⟨q2, q3⟩ ha
+      obtain ⟨x', hx⟩ := assignObs_total (s := x) hw (by rw [q2, q3]; exact ha)
+      obtain ⟨p2, p3⟩ := assignObs_lists hx
+      exact ⟨x', hx, p2.trans q2, p3.trans q3⟩)
+    (s.statics ++ s.dynamics) s ⟨rfl, rfl⟩ (fun a ha => List.mem_append.mp ha)
+  exact ⟨s', h⟩
+
+theorem addToLanelets_total {E : Env} {s : St} {o : Id} (hw : WfEnv E) (hc : Coh E (s.fwd o) o) :
+    ∃ s', addToLanelets E s o = .ok s' := by
+  unfold addToLanelets
+  split
+  · have : ∃ r, addStaticReg E o (s.fwd o) s.sreg = .ok r := by
+      unfold addStaticReg
+      split
+      · exact ⟨_, rfl⟩
+      · next ids hs =>
+        split
+        · exact ⟨_, rfl⟩
+        · exact regStatic_ok E o ids _ (fun l hl => hw.shp_sub o _ l (hc.initShape ids hs ▸ hl))
+    obtain ⟨r, hr⟩ := this
+    exact ⟨_, by rw [hr]; rfl⟩
+  · split
+    · exact ⟨_, rfl⟩
+    · have h1 : ∃ r1, regInit E o (s.fwd o) s.dreg = .ok r1 := by
+        unfold regInit
+        split
+        · exact ⟨_, rfl⟩
+        · next ids hs => exact regDyn_ok E o _ ids _ (fun l hl => hw.shp_sub o _ l (hc.initShape ids hs ▸ hl))
+      obtain ⟨r1, hr1⟩ := h1
+      have h2 : ∃ r2, regPred E o (s.fwd o) r1 = .ok r2 := by
+        unfold regPred
+        split
+        · split
+          · exact ⟨_, rfl⟩
+          · next d hd =>
+            exact regItems_ok E o d _ (fun t ids hm l hl => hw.shp_sub o t l ((hc.predShape d hd t ids hm).1 ▸ hl))
+        · exact ⟨_, rfl⟩
+      obtain ⟨r2, hr2⟩ := h2
+      exact ⟨_, by rw [hr1]; simp only [bind, Except.bind]; rw [hr2]; rfl⟩
+
+theorem add_total {E : Env} {s : St} {o : Id} (hw : WfEnv E) (hi : Inv E s)
+    (hfresh : o ∉ s.statics ∧ o ∉ s.dynamics ∧ o ∉ E.lanelets) : ∃ s', add E s o = .ok s' := by
+  unfold add
+  rw [if_neg (by rintro (h | h | h); exact hfresh.1 h; exact hfresh.2.1 h; exact hfresh.2.2 h)]
+  split
+  · exact addToLanelets_total (s := { s with statics := s.statics ++ [o] }) hw (hi.coh o)
+  · exact addToLanelets_total (s := { s with dynamics := s.dynamics ++ [o] }) hw (hi.coh o)
+
 end CR.Assign
